@@ -32,7 +32,9 @@ def cases_expr(size_sets, qs="{0, 5}"):
 QUICK = [("<<23, 40, 12>>", "<<40, 12>>", "<<12, 23>>"), ("<<12>>", "<<>>", "<<>>"), ("<<>>", "<<>>", "<<40>>"),
          ("<<40, 40>>", "<<12>>", "<<>>")]
 THOROUGH = QUICK + [("<<12, 12, 12>>", "<<23, 23, 23>>", "<<40, 40, 40>>"), ("<<40, 23, 12>>", "<<12, 23, 40>>", "<<23>>"),
-                    ("<<>>", "<<12, 40>>", "<<40, 12>>"), ("<<23>>", "<<23>>", "<<23>>")]
+                    ("<<>>", "<<12, 40>>", "<<40, 12>>"), ("<<23>>", "<<23>>", "<<23>>"),
+                    ("<<12, 23, 40, 12>>", "<<40>>", "<<12, 12, 12, 12>>"), ("<<61, 61>>", "<<61>>", "<<61, 12>>"),
+                    ("<<40, 12, 40, 12>>", "<<>>", "<<>>"), ("<<>>", "<<>>", "<<12, 23, 40, 61>>")]
 
 
 def run(res, tier, seed):
@@ -53,7 +55,7 @@ def run(res, tier, seed):
     res.extra["asis_counterexample"] = "MC_Encoder_AsIs (rollback without buffer truncation) violates C03_AtFinish, as expected"
     # ---- R
     sets = THOROUGH if tier == "thorough" else QUICK
-    limits = "0..260" if tier == "thorough" else "0..215"
+    limits = "0..420" if tier == "thorough" else "0..215"
     tla, cfg = vlib.wrapper(wd, "GE", "Gen_Encoder", {"P_Cases": cases_expr(sets), "P_Limits": limits}, GEN_CFG)
     cases, gst = vlib.gen(tla, cfg, wd, workers=8, timeout=1500)
     if not cases:
@@ -80,8 +82,8 @@ def run(res, tier, seed):
     res.traces += n
     res.exhaustive = True
     # ---- T
-    n_rand = 2500 if tier == "thorough" else 300
-    n_srv = 150 if tier == "thorough" else 25
+    n_rand = 25000 if tier == "thorough" else 300
+    n_srv = 1200 if tier == "thorough" else 25
     tpath = os.path.join(wd, "random.trace.ndjson")
     vlib.run_driver("drive_encoder", ["record", "--trace", tpath, "--n", str(n_rand), "--srv", str(n_srv), "--seed", str(seed)],
                     stdout_path=os.path.join(wd, "random.out"))
